@@ -89,6 +89,8 @@ def correspondence(rep, ctx):
             rep.violation("failing-input", f"{desc}: {msg}", {"case": desc}, True)
 
     def same(a, b, ulps=1):
+        if a != a or b != b:          # NaN: 0/0 in the fractions of a fully decayed inventory (C14's premise fails)
+            return (a != a) and (b != b)
         fa, fb = F(a), F(b)
         return abs(fa - fb) <= ulps * ULP * max(abs(fa), abs(fb))
 
@@ -108,17 +110,18 @@ def correspondence(rep, ctx):
         ends_ok = same(tp[0], lo, 2) and same(tp[-1], hi, 4)
         return ends_ok
 
+    shared_fig, shared_ax = plt.subplots()
     try:
         for u in kinds:
             for scale in ("linear", "log"):
                 for method in ("series", "pandas", "plot"):
                     reps = 2 if thorough else 1
                     for _ in range(reps):
-                        hp = (r.random() < 0.06)
+                        hp = (r.random() < 0.03)
                         C = rd.InventoryHP if hp else rd.Inventory
                         names = r.sample(radio, r.choice([1, 2, 3]))
                         inv = C({n: 10.0 ** r.uniform(3, 15) for n in names}, "num")
-                        n = r.choice([2, 3, 5, 50]) if not hp else r.choice([2, 3])
+                        n = r.choice([2, 3, 5, 50]) if not hp else 2
                         T = 10.0 ** r.uniform(0, 6)
                         tu = r.choice(["s", "d", "y", "h"])
                         desc = f"{C.__name__}({names}) {method} units={u!r} scale={scale} npoints={n} T={T!r} {tu}"
@@ -154,9 +157,9 @@ def correspondence(rep, ctx):
                                 disp = "all" if r.random() < 0.6 else r.sample(list(inv.decay(0.0).contents), 1)
                                 xmin = 0.0 if r.random() < 0.7 else T / 10
                                 yscale = r.choice(["linear", "log"])
+                                shared_ax.clear()
                                 fig, ax = inv.plot(T, tu, xmin=xmin, xscale=scale, yscale=yscale, yunits=u, display=disp,
-                                                   order=order, npoints=n)
-                                plt.close(fig)
+                                                   order=order, npoints=n, fig=shared_fig, axes=shared_ax)
                                 kw = dict(captured)
                                 lo = xmin if scale == "linear" else (0.1 if xmin == 0.0 else xmin)
                                 tp = kw["time_points"]
@@ -202,14 +205,15 @@ def correspondence(rep, ctx):
                     desc = f"{C.__name__}.plot(xscale={xs}, yscale={ys})"
                     rep.case(("scales", C.__name__, xs, ys))
                     rep.dist("plot:scale-combos")
-                    fig, ax = inv.plot(50.0, "y", xscale=xs, yscale=ys, yunits="mmol", npoints=4)
-                    plt.close(fig)
+                    npts = 4 if C is rd.Inventory else 3
+                    shared_ax.clear()
+                    fig, ax = inv.plot(50.0, "y", xscale=xs, yscale=ys, yunits="mmol", npoints=npts, fig=shared_fig, axes=shared_ax)
                     kw = dict(captured)
                     lo = 0.0 if xs == "linear" else 0.1
                     if kw["xscale"] != xs or kw["yscale"] != ys or ax.get_xscale() != xs or ax.get_yscale() != ys:
                         fail(desc, f"axes scales are x={ax.get_xscale()} y={ax.get_yscale()}")
                         continue
-                    if not grid_ok(kw["time_points"], lo, 50.0, 4, xs):
+                    if not grid_ok(kw["time_points"], lo, 50.0, npts, xs):
                         fail(desc, f"time grid {list(kw['time_points'])} is not the {xs} grid from {lo} to 50")
                         continue
                     ref = inv.decay(kw["time_points"][2], "y").moles("mmol")
